@@ -360,6 +360,91 @@ def inline_fn(prog, f, no_inline=None):
 
 
 # ------------------------------------------------------------------------------------------------
+# `iter.for_each(|x| body)` -> the explicit loop it abbreviates, in the few batch-handling functions whose rules are stated per iteration
+# (every element of a delivered/recovered batch reaches its sink).  `for x in it { body }` <-> `it.for_each(|x| body)` is the commonest
+# loop rewrite; without this the per-iteration rules would have to be written twice.
+FOR_EACH_HOSTS = (r"ReplicatedShardedState::<T>::apply_remote_deltas$", r"ReplicatedShardedState::<T>::apply_recovered_state$",
+                  r"simulator::multi_node::SimulatedNode::apply_remote_deltas$")
+
+
+def _splice_for_each(host, B, c, clo_local, it_local):
+    d = host.d
+    t = d["blocks"][B]["t"]
+    base = len(d["locals"])
+    boff = len(d["blocks"])
+    d["locals"] = d["locals"] + list(c.d["locals"])
+    itref = len(d["locals"])
+    item_ty = c.d["locals"][2] if c.d["argc"] >= 2 and len(c.d["locals"]) > 2 else "?"
+    d["locals"] = d["locals"] + ["&mut " + str(d["locals"][it_local]), "std::option::Option<%s>" % item_ty, "isize"]
+    nx, disc = itref + 1, itref + 2
+    lmap = lambda l: base + l
+    nbody = len(c.blocks)
+    H, S, P, U = boff + nbody, boff + nbody + 1, boff + nbody + 2, boff + nbody + 3
+    chain = host.chain[B] + (c.id,)
+    for i, b in enumerate(c.blocks):
+        nb = {"cleanup": b.get("cleanup", False), "st": [_rw(s_, lmap) for s_ in b["st"]], "t": _rw_term(b["t"], lmap, boff)}
+        if nb["t"]["k"] == "return":
+            nb["t"] = {"k": "goto", "to": H, "ln": b["t"].get("ln"), "x": "inl:for_each:next-iteration"}
+        d["blocks"].append(nb)
+        host.chain[boff + i] = chain
+    ln = t.get("ln")
+    it_ty = str(d["locals"][it_local])
+    d["blocks"].append({"cleanup": False,
+                        "st": [{"lhs": {"l": itref}, "rv": {"k": "ref", "mut": True, "fake": False, "pl": {"l": it_local}}, "ln": ln, "x": "inl:for_each"}],
+                        "t": {"k": "call", "fn": "std::iter::Iterator::next", "fnargs": "<%s as std::iter::Iterator>::next" % it_ty,
+                              "trait": "std::iter::Iterator", "selfty": it_ty, "args": [{"mv": {"l": itref}}], "dest": {"l": nx}, "to": S, "ln": ln,
+                              "x": "inl:for_each"}})
+    d["blocks"].append({"cleanup": False,
+                        "st": [{"lhs": {"l": disc}, "rv": {"k": "discr", "pl": {"l": nx}, "t": "std::option::Option<%s>" % item_ty}, "ln": ln, "x": "inl:for_each"}],
+                        "t": {"k": "switch", "d": {"mv": {"l": disc}}, "dt": "isize", "cases": [["0", t["to"]], ["1", P]], "else": U, "ln": ln}})
+    d["blocks"].append({"cleanup": False,
+                        "st": [{"lhs": {"l": base + 1}, "rv": {"k": "ref", "mut": True, "fake": False, "pl": {"l": clo_local}}, "ln": ln, "x": "inl:arg"},
+                               {"lhs": {"l": base + 2}, "rv": {"k": "use", "a": {"mv": {"l": nx, "p": [{"dc": "Some"}, {"f": "0", "o": "std::option::Option::Some", "t": item_ty}]}}},
+                                "ln": ln, "x": "inl:arg"}],
+                        "t": {"k": "goto", "to": boff, "ln": ln}})
+    d["blocks"].append({"cleanup": False, "st": [], "t": {"k": "unreachable", "ln": ln}})
+    for j in (H, S, P, U):
+        host.chain[j] = chain
+    d["blocks"][B]["t"] = {"k": "goto", "to": H, "ln": ln, "x": "inl:for_each:" + c.id}
+    for n in c.d["names"]:
+        d["names"].append({"n": n["n"], "pl": _rw(n["pl"], lmap)})
+    host.inlined.append(c.id)
+
+
+def expand_for_each(prog, f):
+    if not any(re.search(p_, f.id) for p_ in FOR_EACH_HOSTS):
+        return f
+    from .lib import src_of_operand
+    from .facts import op_local, callee
+    host = None
+    cur = f
+    for _round in range(6):
+        found = None
+        for B, b in enumerate(cur.blocks):
+            t = b["t"]
+            if t["k"] != "call" or "to" not in t or len(t.get("args", [])) < 2 or B not in cur.reachable_blocks():
+                continue
+            if not any(re.search(r"Iterator>::for_each(::<.*>)?$|^std::iter::Iterator::for_each$", n_) for n_ in callee_names(t)):
+                continue
+            s_ = src_of_operand(cur, t["args"][1])
+            if s_.kind != "agg" or s_.rv.get("ak") != "closure":
+                continue
+            c = prog.fns.get(s_.rv["n"])
+            clo_local, it_local = op_local(t["args"][1]), op_local(t["args"][0])
+            if c is None or len(c.blocks) > MAX_BLOCKS or clo_local is None or it_local is None or c.d["argc"] < 2:
+                continue
+            found = (B, c, clo_local, it_local)
+            break
+        if found is None:
+            break
+        if host is None:
+            host = _Host(cur if isinstance(cur, Fn) else f)
+        _splice_for_each(host, *found)
+        cur = Fn(host.d, f.crate)
+    return host.fn() if host is not None else f
+
+
+# ------------------------------------------------------------------------------------------------
 _views = {}
 
 
@@ -381,12 +466,12 @@ def inlined_view(prog, no_inline=None, tag=""):
     if key in _views:
         return _views[key]
     if not known_fns():
-        _views[key] = prog
-        return prog
+        _views[key] = _with_loops(prog, prog)
+        return _views[key]
     fresh = [f for f in prog.fns.values() if f.kind in ("fn", "method") and is_fresh(f) and f.d.get("vis") != "pub"]
     if not fresh:
-        _views[key] = prog
-        return prog
+        _views[key] = _with_loops(prog, prog)
+        return _views[key]
     v = object.__new__(Program)
     v.dir = prog.dir
     v.adts = prog.adts
@@ -425,5 +510,37 @@ def inlined_view(prog, no_inline=None, tag=""):
             if ab is not None:
                 v.hidden.add(ab[0].id)
     v.fns.hidden = frozenset(v.hidden)
+    v = _with_loops(prog, v)
     _views[key] = v
     return v
+
+
+def _with_loops(base_prog, view):
+    """the view with for_each calls of the batch-handling hosts expanded into explicit loops (a new view only if something changed)"""
+    changed = {}
+    for fid, f in list(dict.items(view.fns)):
+        if any(re.search(p_, fid) for p_ in FOR_EACH_HOSTS):
+            nf = expand_for_each(base_prog, f)
+            if nf is not f:
+                changed[fid] = nf
+    if not changed:
+        return view
+    if view is base_prog:
+        v = object.__new__(Program)
+        v.dir = base_prog.dir
+        v.adts = base_prog.adts
+        v.crates = base_prog.crates
+        v.fns = _FnMap(base_prog.fns)
+        v._children = None
+        v._cg = None
+        v.hidden = set()
+        v.base = base_prog
+        view = v
+    hid = set(getattr(view.fns, "hidden", frozenset()))
+    for fid, nf in changed.items():
+        view.fns[fid] = nf
+        for cid in nf.d.get("inlined_from") or []:
+            hid.add(cid)
+    view.fns.hidden = frozenset(hid)
+    view._children = None
+    return view
